@@ -41,6 +41,7 @@ type HarnessSpec struct {
 	Havoc   []string               `json:"havoc"`
 	ForkAll []string               `json:"fork_all"`
 	NativeRedirect bool            `json:"native_redirect"`
+	FloatTaint bool                `json:"float_taint"`
 	Typecheck []string             `json:"typecheck"` // "goos/goarch" targets: the current tree must load (type-check + SSA) for each
 	Solver  []string               `json:"solver"`
 }
@@ -178,6 +179,7 @@ func main() {
 				for _, f := range h.ForkAll {
 					e.ForkAll[expandName(f)] = true
 				}
+				e.FloatTaint = h.FloatTaint
 			}
 		}
 		r := e.RunHarness(pkgPath(parts[0]), parts[1], args, 0)
@@ -507,6 +509,7 @@ func runProp(prop, tier string, workers int, debug bool, only string, noReplay b
 				for _, f := range j.h.ForkAll {
 					e.ForkAll[expandName(f)] = true
 				}
+				e.FloatTaint = j.h.FloatTaint
 				e.KnownOpen = map[string]bool{}
 				for id := range openKnown {
 					e.KnownOpen[id] = true
